@@ -253,7 +253,11 @@ func (c *Ctx) Case(caseID string, f func() []string) {
 	func() {
 		defer func() {
 			if r := recover(); r != nil {
-				fails = append(fails, fmt.Sprintf("panic: %v", r))
+				cls := caseID
+				if i := strings.IndexAny(cls, ":| "); i > 0 {
+					cls = cls[:i]
+				}
+				fails = append(fails, fmt.Sprintf("panic[%s %s]: in case %s", cls, strings.ReplaceAll(fmt.Sprint(r), ": ", " - "), caseID))
 			}
 		}()
 		fails = f()
